@@ -311,7 +311,7 @@ class Interp:
             return True
         if v is None:
             return False
-        if isinstance(v, tuple) and v and v[0] == 'ptr':
+        if isinstance(v, tuple) and v and v[0] == 'tabptr':
             return True
         if isinstance(v, bool):
             return v
@@ -801,8 +801,8 @@ class Interp:
             a = self.expr(ch[0], env)
             b = self.expr(ch[1], env)
             # pointers into a constant character table (the result of strchr): null tests and the distance from the table's start
-            pa = isinstance(a, tuple) and a and a[0] == 'ptr'
-            pb = isinstance(b, tuple) and b and b[0] == 'ptr'
+            pa = isinstance(a, tuple) and a and a[0] == 'tabptr'
+            pb = isinstance(b, tuple) and b and b[0] == 'tabptr'
             if pa or pb:
                 def is_null(x):
                     return x is None or (isinstance(x, IV) and x.concrete() and x.lo == 0)
@@ -812,7 +812,7 @@ class Interp:
                     return const(64, True, a[2])
                 if op == '-' and pa and pb and a[1] == b[1]:
                     return const(64, True, a[2] - b[2])
-                raise AnalysisBroken('unsupported pointer arithmetic %s at %s' % (op, pos(n)))
+                raise AnalysisBroken('unsupported arithmetic %s on a pointer into a character table at %s' % (op, pos(n)))
             return self.binop(op, a, b, n)
         if k == 'CompoundAssignOperator':
             op = n['opcode'][:-1]
@@ -1321,7 +1321,7 @@ class Interp:
                         raise AnalysisBroken('memchr with a non-constant length at %s' % pos(n))
                     text = (tab[1] + '\0')[:cnt.lo]
                 i_ = text.find(chr(cv.lo & 0xFF))
-                return ('ptr', tab[1], i_) if i_ >= 0 else None     # null pointer, as CXXNullPtrLiteralExpr
+                return ('tabptr', tab[1], i_) if i_ >= 0 else None     # null pointer, as CXXNullPtrLiteralExpr
             if name in ('div', 'ldiv', 'lldiv') and len(args) == 2:
                 # std::div: quotient truncated towards zero, remainder with the sign of the dividend
                 a_, b_ = self.expr(args[0], env), self.expr(args[1], env)
